@@ -39,9 +39,14 @@ TCancel == Have("Cancel") /\ UserCancel /\ Consume /\ UNCHANGED aux
 \* written by Run's deferred function: after the loop decided the result (silent EngRecv / EngCancel), before cancel()
 TEngineReturn == /\ Have("EngineReturn") /\ engRet.k # "none" /\ ~engLogged /\ engLogged' = TRUE
                  /\ Consume /\ UNCHANGED <<vars, retLogged, wdLogged, runLogged>>
+\* Hook lines are keyed by the pool's id.  In a plan whose pools SHARE an id (dupid) they carry p = 0: the line
+\* belongs to one of the pools, and it must be a step of at least one of them (TLC tries each).  Mock lines carry
+\* the pool of the mock object itself and stay exact.
+PoolOf(e) == IF e.p = 0 /\ plan.dupid # "none" THEN Pools ELSE {e.p}
+
 TRunReturn ==
   /\ Have("RunReturn") /\ ~runLogged
-  /\ engRet = (IF Ev.cls = "err" THEN ERet("err", Ev.p, Ev.c) ELSE ERet(Ev.cls, 0, ""))
+  /\ IF Ev.cls = "err" THEN \E q \in PoolOf(Ev) : engRet = ERet("err", q, Ev.c) ELSE engRet = ERet(Ev.cls, 0, "")
   /\ (Ev.flag => Ev.ms <= PromptMs)
   /\ runLogged' = TRUE /\ Consume /\ UNCHANGED <<vars, retLogged, wdLogged, engLogged>>
 TWaitReturn == Have("WaitReturn") /\ runLogged /\ WaitReturn /\ Consume /\ UNCHANGED aux
@@ -58,22 +63,25 @@ TBlocked == Have("Blocked") /\ PP(Ev.p).block = Ev.cls /\ pst[Ev.p] = "init" /\ 
 TRelease == Have("Release") /\ runLogged /\ engRet.k # "none" /\ Consume /\ UNCHANGED <<vars, aux>>
 
 TPoolReturn ==
-  /\ Have("PoolReturn") /\ ~retLogged[Ev.p]
-  /\ retLogged' = [retLogged EXCEPT ![Ev.p] = TRUE]
-  /\ \/ pst[Ev.p] \in {"ret", "report", "done"} /\ pret[Ev.p] = PRet(Ev) /\ UNCHANGED vars   \* failsync: PoolStart was silent
-     \/ PoolRet(Ev.p, PRet(Ev))
+  /\ Have("PoolReturn")
+  /\ \E q \in PoolOf(Ev) :
+       /\ ~retLogged[q]
+       /\ retLogged' = [retLogged EXCEPT ![q] = TRUE]
+       /\ \/ pst[q] \in {"ret", "report", "done"} /\ pret[q] = PRet(Ev) /\ UNCHANGED vars   \* failsync: PoolStart was silent
+          \/ PoolRet(q, PRet(Ev))
   /\ Consume /\ UNCHANGED <<wdLogged, runLogged, engLogged>>
 TWaitDone ==
-  /\ Have("WaitDone") /\ wdLogged[Ev.p] < wd[Ev.p]
-  /\ wdLogged' = [wdLogged EXCEPT ![Ev.p] = @ + 1]
+  /\ Have("WaitDone")
+  /\ \E q \in PoolOf(Ev) : wdLogged[q] < wd[q] /\ wdLogged' = [wdLogged EXCEPT ![q] = @ + 1]
   /\ Consume /\ UNCHANGED <<vars, retLogged, runLogged, engLogged>>
 
 \* the await goroutine's send and Run's receive are one step; either side may log first (the await goroutine may
 \* even log WaitDone before Run logs its return)
 TErrForwarded ==
   /\ Have("ErrForwarded")
-  /\ \/ pst[Ev.p] = "run" /\ PoolRet(Ev.p, Ret("err", Ev.cls))
-     \/ pst[Ev.p] # "run" /\ pret[Ev.p] = Ret("err", Ev.cls) /\ UNCHANGED vars
+  /\ \E q \in PoolOf(Ev) :
+       \/ pst[q] = "run" /\ PoolRet(q, Ret("err", Ev.cls))
+       \/ pst[q] # "run" /\ pret[q] = Ret("err", Ev.cls) /\ UNCHANGED vars
   /\ Consume /\ UNCHANGED aux
 
 TInstStart == Have("Bind") /\ Ev.cls = "ok" /\ InstStart(Ev.p) /\ Consume /\ UNCHANGED aux
